@@ -243,16 +243,17 @@ Qed.
 
 (* any number of goroutines, any operation lists, any schedule: when all have returned the
    shared logger is the sequential application of ALL operations in the order of their
-   successful CompareAndSwaps *)
+   successful CompareAndSwaps, which respects every goroutine's program order *)
 Lemma conc_linearisable : forall c0 progs sched st tr,
   crun (cinit c0 progs) sched = (st, tr) -> all_returned cop core st = true ->
-  Permutation tr (concat progs)
-  /\ abs (snd (m_cell st)) = fold_left sapply tr (abs c0).
+  Permutation (untag cop tr) (concat progs)
+  /\ (forall t, ops_of cop t tr = nth t progs [])
+  /\ abs (snd (m_cell st)) = fold_left sapply (untag cop tr) (abs c0).
 Proof.
   intros c0 progs sched st tr Hrun Hret.
   destruct (run_linearisable cop core fn (cpure core_with) cident cprog cfn cprog_shape cident_pure
-              c0 progs sched st tr Hrun Hret) as [Hp Hc].
-  split; [exact Hp|]. rewrite Hc. apply abs_fold_capply.
+              c0 progs sched st tr Hrun Hret) as (Hp & Hc & Ho).
+  split; [exact Hp | split; [exact Ho|]]. rewrite Hc. apply abs_fold_capply.
 Qed.
 
 (* no field lost, no level change lost *)
@@ -260,17 +261,18 @@ Lemma conc_nothing_lost : forall c0 progs sched st tr,
   crun (cinit c0 progs) sched = (st, tr) -> all_returned cop core st = true ->
   (exists added, Permutation added (flat_map cop_fields (concat progs))
                  /\ cfields (snd (m_cell st)) = cfields c0 ++ added)
-  /\ Permutation tr (concat progs)
-  /\ clevel (snd (m_cell st)) = lin_level tr (clevel c0)
+  /\ Permutation (untag cop tr) (concat progs)
+  /\ clevel (snd (m_cell st)) = lin_level (untag cop tr) (clevel c0)
   /\ forall l, emit (snd (m_cell st)) l
-               = semit (cfields c0 ++ flat_map cop_fields tr, lin_level tr (clevel c0)) l.
+               = semit (cfields c0 ++ flat_map cop_fields (untag cop tr),
+                        lin_level (untag cop tr) (clevel c0)) l.
 Proof.
   intros c0 progs sched st tr Hrun Hret.
-  destruct (conc_linearisable c0 progs sched st tr Hrun Hret) as [Hp Habs].
+  destruct (conc_linearisable c0 progs sched st tr Hrun Hret) as (Hp & _ & Habs).
   rewrite fold_sapply in Habs. unfold abs in Habs at 1. cbn [fst snd abs] in Habs.
   injection Habs as Hf Hl.
   split; [|split; [exact Hp | split; [exact Hl|]]].
-  - exists (flat_map cop_fields tr). split; [apply flat_map_perm; exact Hp | exact Hf].
+  - exists (flat_map cop_fields (untag cop tr)). split; [apply flat_map_perm; exact Hp | exact Hf].
   - intros l. rewrite emit_abs. unfold abs. rewrite Hf, Hl. reflexivity.
 Qed.
 
@@ -278,12 +280,12 @@ Qed.
    linearised so far, each requested and none twice *)
 Lemma conc_prefix : forall c0 progs sched st tr,
   crun (cinit c0 progs) sched = (st, tr) ->
-  abs (snd (m_cell st)) = fold_left sapply tr (abs c0)
-  /\ exists rest, Permutation (tr ++ rest) (concat progs).
+  abs (snd (m_cell st)) = fold_left sapply (untag cop tr) (abs c0)
+  /\ exists rest, Permutation (untag cop tr ++ rest) (concat progs).
 Proof.
   intros c0 progs sched st tr Hrun.
   destruct (run_cell cop core fn (cpure core_with) cident cprog cfn cprog_shape cident_pure
-              c0 progs sched st tr Hrun) as [Hc Hp].
+              c0 progs sched st tr Hrun) as (Hc & Hp & _).
   split; [rewrite Hc; apply abs_fold_capply | eexists; exact Hp].
 Qed.
 
@@ -311,5 +313,5 @@ Definition conc_witness2_sched : list nat := [0; 1; 1; 0]%nat.
 Lemma conc_orig_witness2 :
   let r := crun_orig (cinit (Base 0 []) conc_witness2_progs) conc_witness2_sched in
   all_returned cop core (fst r) = true /\ clevel (snd (m_cell (fst r))) = 0
-  /\ snd r = [CSetLevel (-1); CWith [1%N]].
+  /\ untag cop (snd r) = [CSetLevel (-1); CWith [1%N]].
 Proof. vm_compute. repeat split; reflexivity. Qed.
